@@ -21,7 +21,6 @@ ID = "C10"
 ANCHORS = ["solvor/hungarian.py", "solvor/utils/helpers.py"]
 IMPORTS = "From SV Require Import C10.Hungarian C10.HungarianSpec."
 TIMEOUT = 1.0   # seconds per call; a 12x12 instance takes < 5 ms
-ZERO_COLS = "C10-zero-cols"   # rows > 0, cols = 0: code returns [] instead of [-1]*rows
 
 
 # ---------------------------------------------------------------- generators
@@ -75,6 +74,8 @@ def gen_case(rng, big=False):
         nr, nc = rng.randint(hi + 1, top), rng.randint(2, top)
         if rng.random() < 0.5:
             nr, nc = nc, nr
+    if rng.random() < 0.02:          # r x 0 (and 0 x 0): every row stays unassigned
+        nr, nc = rng.randint(0, 5), 0
     kind = rng.choice(KINDS)
     num, sh = _entries(rng, kind, nr, nc)
     return {"num": num, "shift": sh, "minimize": rng.random() < 0.5, "as_float": sh > 0 or rng.random() < 0.5, "kind": kind}
@@ -90,6 +91,7 @@ def fixed_cases():
         add([], mz)
         add([[]], mz)
         add([[], []], mz)
+        add([[], [], []], mz, as_float=True)
         add([[5]], mz)
         add([[-5]], mz, as_float=True)
         add([[0]], mz)
@@ -213,11 +215,6 @@ def oracle(case, out, enum_limit=6):
     return None
 
 
-def is_zero_cols(case):
-    num = case["num"]
-    return len(num) > 0 and all(len(r) == 0 for r in num)
-
-
 def judge(item):
     case, enum_limit = item
     out = run_one(case)
@@ -325,8 +322,9 @@ def run(ctx: Ctx):
         "(fuel n+1) are the error value None of the model; C10_matching proves neither happens.",
         "well-formedness: every row has the length of the first row (ragged inputs raise IndexError or ignore trailing entries; outside the property).",
         "optimality for sizes above the enumeration limit is judged by an exact DP over column subsets (independent of the model); "
-        "cert_check (dual feasibility + tightness of the model's FINAL potentials, by vm_compute in coqc) is a per-run certificate for the "
-        "model's answer, which the correspondence lemma shows equal to the implementation's answer.",
+        "C10_optimal proves optimality of the MODEL's answer for every matrix; cert_check (dual feasibility + tightness of the model's FINAL "
+        "potentials, by vm_compute in coqc) is kept as a redundant per-run certificate; the correspondence lemma shows the model's answer "
+        "equal to the implementation's answer on the cases of this run.",
         "Result.iterations / evaluations / status are not part of the property and not compared (iterations is used only to classify cases).",
     ]
     ctx.proof_step(["C10"])
@@ -346,14 +344,8 @@ def run(ctx: Ctx):
         ctx.count("kind", case["kind"].split(":")[0])
         ctx.count("minimize", case["minimize"])
         ctx.count("outcome", out["outcome"] if out["outcome"] != "ok" else out.get("status"))
-        zero_cols = is_zero_cols(case)
         if bad:
-            entry = {f.get("id"): f for f in ctx.known}.get(ZERO_COLS)
-            if (zero_cols and bad[0] == "length" and out.get("solution") == [] and out.get("obj_scaled") == 0
-                    and (entry is None or entry.get("status") == "open")):
-                ctx.known_hit(ZERO_COLS, f"solve_hungarian({to_input(case)!r}) returns [] (one entry per row expected: {[-1] * nr}); "
-                                         "the early return `not cost_matrix[0]` drops the rows")
-            elif len(ctx.violations) >= 5:
+            if len(ctx.violations) >= 5:
                 ctx.count("violations_not_listed", bad[0])
             else:
                 small = shrink(case, enum_limit, 20.0 if len(ctx.violations) < 2 else 3.0)
@@ -369,8 +361,7 @@ def run(ctx: Ctx):
         ctx.sample({"matrix": to_input(case), "minimize": case["minimize"], "solution": out.get("solution"), "objective": out.get("objective")})
         coq_cases.append(coq_case(case, out))
         metas.append((case, out))
-        if not zero_cols:
-            spec_cases.append(coq_case(case, out))
+        spec_cases.append(coq_case(case, out))
     failing = ctx.coq_check("corr", IMPORTS, CASE_T, CHK_MODEL, coq_cases)
     ctx.traces_validated += len(coq_cases) - len(failing)
     spec_failing = ctx.coq_check("spec", IMPORTS, CASE_T, CHK_SPEC, spec_cases)
@@ -398,7 +389,7 @@ def run(ctx: Ctx):
                 extra.append(dict(c, num=n2, minimize=ctx.rng.random() < 0.5))
         extra += [gen_case(ctx.rng, True) for _ in range(20000)]
         for (out, bad), c in zip(pmap(judge, [(c, 7) for c in extra]), extra):
-            if bad and not (is_zero_cols(c) and bad[0] == "length"):
+            if bad:
                 found = (c, out, bad)
                 break
         if found:
@@ -429,6 +420,4 @@ def replay(obj):
     print("input:", to_input(case), "minimize =", case["minimize"])
     print("implementation:", out)
     print("oracle verdict:", bad or "ok")
-    if bad and is_zero_cols(case) and bad[0] == "length":
-        print("(known finding", ZERO_COLS + ")")
     return 1 if bad else 0
